@@ -132,6 +132,14 @@ func BulkPayload(r *rng.R, max int) []byte {
 		// lengths right below the 64 KiB bound of the statement: buffer-growth boundaries live here
 		return r.Bytes(rng.Pick(r, []int{65533, 65534, 65535, 65536}))
 	}
+	if r.Chance(1, 60) {
+		// lengths where the decimal length prefix gains a digit (and their neighbours)
+		n = rng.Pick(r, []int{9, 10, 11, 99, 100, 101, 999, 1000, 1001, 9999, 10000, 10001})
+		if n > max {
+			n = max
+		}
+		return r.From(Alpha, n)
+	}
 	switch r.Intn(10) {
 	case 0:
 		n = 0
